@@ -46,6 +46,10 @@ def label(rng, maxlen=63, plain=False):
     return bytes(octet(rng) for _ in range(n))
 
 
+# whole labels whose unescaped text would be read as something else by the master-file syntax
+TOKEN_LIKE = (b"@", b"@", b"*", b"\\", b'"', b"$", b"$TTL", b"$ORIGIN", b"(", b")", b";", b" ", b".", b"IN", b"A", b"3600", b"1h", b"\\#", b"#", b"TYPE1", b"CLASS1", b"-")
+
+
 def simple_label(rng):
     n = rng.choice((1, 1, 2, 3, 3, 5, 8))
     return bytes(rng.choice(b"abcxyzABCXYZ019-_") for _ in range(n))
@@ -57,10 +61,17 @@ def wire_len(labels):
 
 def rel_labels(rng, budget=254, plain=False, shape=None):
     """a relative label sequence whose wire length (without root) is <= budget"""
-    shape = shape or rng.choice(("short", "short", "short", "mid", "many1", "fewmax", "full", "empty"))
+    shape = shape or rng.choice(("short", "short", "short", "mid", "many1", "fewmax", "full", "empty", "token"))
     labs = []
     if shape == "empty":
         return ()
+    if shape == "token":
+        if plain:
+            shape = "short"
+        else:
+            labs = [rng.choice(TOKEN_LIKE)]
+            if rng.random() < 0.3:
+                labs.insert(rng.randrange(2), simple_label(rng))
     if shape == "short":
         k = rng.randint(1, 4)
         for _ in range(k):
